@@ -247,7 +247,7 @@ ASMJIT_FAVOR_SIZE Error FuncArgsContext::init_work_data(const FuncFrame& frame, 
 
   _var_count = var_id;
 
-  // Detect register swaps.
+  // Detect register swaps and cycles.
   for (var_id = 0; var_id < _var_count; var_id++) {
     Var& var = _vars[var_id];
     if (var.cur.is_reg() && var.out.is_reg()) {
@@ -259,12 +259,22 @@ ASMJIT_FAVOR_SIZE Error FuncArgsContext::init_work_data(const FuncFrame& frame, 
         continue;
       }
 
+      // Follow the variables that occupy the destination - if their destinations lead back to the register of
+      // this variable then the registers have to be swapped (two) or rotated (three or more).
       WorkData& wd = _work_data[group];
-      if (wd.is_assigned(dst_id)) {
-        Var& other = _vars[wd._phys_to_var_id[dst_id]];
-        if (RegUtils::group_of(other.out.reg_type()) == group && other.out.reg_id() == src_id) {
+      uint32_t reg_id = dst_id;
+
+      for (uint32_t n = 0; n < _var_count && wd.is_assigned(reg_id); n++) {
+        const Var& other = _vars[wd._phys_to_var_id[reg_id]];
+        if (!other.out.is_reg() || RegUtils::group_of(other.out.reg_type()) != group) {
+          break;
+        }
+
+        reg_id = other.out.reg_id();
+        if (reg_id == src_id) {
           wd._num_swaps++;
           _reg_swaps_mask = uint8_t(_reg_swaps_mask | Support::bit_mask<uint32_t>(group));
+          break;
         }
       }
     }
